@@ -918,6 +918,7 @@ class Mps(MatrixProduct):
         # only not canonicalise when force_ovlp=True and to_right=False
         if not (self.evolve_config.force_ovlp and not self.to_right):
             self.ensure_left_canonical()
+        _trim_overcomplete_bonds(self)
 
         # `self` should not be modified during the evolution
         if imag_time:
@@ -1122,6 +1123,7 @@ class Mps(MatrixProduct):
             coef = 1j
 
         self.ensure_left_canonical()
+        _trim_overcomplete_bonds(self)
 
         # `self` should not be modified during the evolution
         # mps: the mps to return
@@ -1930,6 +1932,15 @@ def transferMat(mps, mpsconj, domain, imps, val) -> np.ndarray:
         raise ValueError(f"the dim of local mps is not correct: {mps[0].ndim}")
 
     return asnumpy(val)
+
+
+def _trim_overcomplete_bonds(mps):
+    # the mean-field schemes need every site tensor to have full row rank as a (left bond) x (physical * right bond)
+    # matrix; states from `Mps.random` with a large `m_max` or from `Mpo.apply` carry larger bonds. A pair of QR
+    # sweeps (gauge change only) removes the excess.
+    if any(ms.shape[0] > np.prod(ms.shape[1:]) for ms in mps):
+        mps.ensure_right_canonical()
+        mps.ensure_left_canonical()
 
 
 def _mu_regularize(s, epsilon=1e-10):
